@@ -878,6 +878,11 @@ def mut_mark_last(repo: Repo) -> List[Mutant]:
 FA = "program/assignment/functional_assignment.py"
 
 
+def resolve_alias_local(e, defs):
+    from ..shape import resolve_alias as _ra
+    return _ra(e, defs)
+
+
 def rule_transform_terms(repo: Repo) -> List[Ob]:
     obs = []
     for qn, meth in (("FunctionalAssignment.get_trig_moment", "cf"), ("FunctionalAssignment.get_exp_moment", "mgf")):
@@ -917,6 +922,29 @@ def rule_transform_terms(repo: Repo) -> List[Ob]:
                         ok = len(d.args) == 3 and isinstance(d.args[2], ast.Name) and d.args[2].id in idn
                         obs.append(Ob("M-transform-term", key, FA, v.lineno, qn, ok,
                                       f"{meth} is differentiated `Id`-power times" if ok else f"`{src(d)[:60]}`: the derivative order is not the identity power"))
+                        if meth == "cf" and ok:
+                            # the symbolic derivative of a closed-form cf is substituted into only away from 0 (removable singularities: Beta gives 0, Uniform nan)
+                            subs_ = [x for x in ast.walk(v) if isinstance(x, ast.Call) and call_name(x) in ("xreplace", "subs") and x.args and isinstance(x.args[0], ast.Dict) and x.args[0].values]
+                            keyz = f"{FA}::{qn}::derivative-at-zero"
+                            if subs_:
+                                point = subs_[0].args[0].values[0]
+                                from ..shape import conjuncts as _cj2
+                                facts = []
+                                for t_, reach_ in controlling_tests(c, node_for(c, site)):
+                                    if isinstance(t_.ast, ast.expr) and isinstance(reach_, bool):
+                                        facts += _cj2(t_.ast, reach_)
+                                _keep = set(idn) | set(tv) | {"t"}
+
+                                def _norm(e_):
+                                    return src(inline_locals(e_, defs, keep=_keep, depth=6))
+                                psrc = _norm(point)
+                                nonzero = any(isinstance(fa, ast.Compare) and len(fa.ops) == 1 and
+                                              {_norm(fa.left), _norm(fa.comparators[0])} == {psrc, "0"} and
+                                              ((isinstance(fa.ops[0], ast.Eq) and tr is False) or (isinstance(fa.ops[0], ast.NotEq) and tr is True)) for fa, tr in facts)
+                                obs.append(Ob("M-transform-term", keyz, FA, subs_[0].lineno, qn, nonzero,
+                                              "the symbolic derivative of the cf is evaluated only at non-zero frequencies (at 0 the raw moment stands in)" if nonzero else
+                                              f"`{src(subs_[0])[:70]}` substitutes the frequency into the symbolic derivative of the cf also when it is 0: closed-form cfs have a removable "
+                                              "singularity there (Beta: the term silently becomes 0, Uniform: nan), the zero-frequency part of E(X**a cos(X)**2) is lost"))
                     else:
                         tests = controlling_tests(c, node_for(c, site))
                         def id_is_zero(t, reach) -> bool:
